@@ -3,7 +3,7 @@ From Coq Require Import ZArith QArith Qreals List Reals Bool.
 From Coquelicot Require Import Complex Hierarchy Derive.
 From PyqspV Require Import Base.Ops Base.IntervalZ Model.LPolyM Model.LAlgM Model.QInst Model.ResponseM Model.SymQspM Model.Checkers
   Theory.RingK Theory.LPolyT Theory.LAlgT Theory.RelT Theory.CplxT Theory.RespT Theory.QC Theory.CertT Theory.C01T Theory.C06T
-  Theory.CornerT Theory.SymQspT Theory.SymCertT Theory.DualT Theory.JacT Theory.AccHiT Theory.ChebDblT Theory.FftT.
+  Theory.CornerT Theory.SymQspT Theory.SymCertT Theory.DualT Theory.JacT Theory.AccHiT Theory.ChebDblT Theory.FftT Theory.SupMonoT Theory.IntervalT Model.Jac3M Theory.Jac3T.
 Import ListNotations.
 
 Section Layout.
@@ -89,3 +89,26 @@ Theorem C12_circle_orthogonality N j k : (j + k < N)%nat ->
   cgram N j k = if Nat.eqb j k then (if Nat.eqb j 0 then INR N else (INR N / 2)%R) else 0%R.
 Proof. exact (circle_orthogonality N j k). Qed.
 Print Assumptions C12_circle_orthogonality.
+
+(* gen_poly_jacobian_components (the 3x3 rotation recurrences, Model/Jac3M.v).
+   (1) the symmetric Wx product of the protocol's full phases is the symmetric matrix S(x,y,z) of the routine's forward state, so the
+       value entry y[n] is Im <0|U(a)|0>  (a = cos t, s = sin t; reduced phases given by their (cos, sin) pairs, even parity with the
+       doubled centre phase) *)
+Theorem C12_components_value_is_im_response (a s : R) odd c0 rest : (a * a + s * s = 1)%R -> unitcs c0 -> List.Forall unitcs rest ->
+  last (jac3 OpsRR (ct2 a s) (r_init a s odd) (map dblcs (c0 :: rest))) 0%R = snd (m00 (Ulist a s (full_cs odd c0 rest))).
+Proof. intros H. exact (jac3_value_is_im_response a s H odd c0 rest). Qed.
+Print Assumptions C12_components_value_is_im_response.
+
+(* (2) the entries y[k], k < n, are the partial derivatives of the value with respect to the reduced phases *)
+Theorem C12_components_are_partial_derivatives ct pre r phi post :
+  Coquelicot.Derive.is_derive (fun x => dot3 OpsRR (arow RR ct (map cs2 (pre ++ x :: post))) r) phi
+            (nth (length pre) (snd (go OpsRR ct r (map cs2 (pre ++ phi :: post)))) 0%R).
+Proof. exact (jac3_partial ct pre r phi post). Qed.
+Print Assumptions C12_components_are_partial_derivatives.
+
+(* (3) the certified distances of the run: every claimed entry is within the returned bound of the real routine's entry *)
+Theorem C12_components_certificate odd red a vals ds : jac3_dists odd red a vals = Some ds ->
+  (-1 <= Q2R a <= 1)%R /\
+  Forall2 (fun d yv => (Rabs (fst yv - Q2R (snd yv)) * sc <= IZR d)%R) ds (combine (jac3R odd (map Q2R red) (Q2R a)) vals).
+Proof. exact (jac3_dists_sound odd red a vals ds). Qed.
+Print Assumptions C12_components_certificate.
